@@ -172,6 +172,24 @@ macro_rules! with_fam {
                 type $F = $crate::fam::F12;
                 $body
             }
+            // two DIFFERENT families whose types are spelt the same: block-local items of one function
+            // share their `std::any::type_name` (it does not tell blocks apart), `TypeId`s differ
+            13 => {
+                struct Twin;
+                impl $crate::fam::Fam for Twin {
+                    type Data<'a> = ::shred::Read<'a, $crate::res::Slot<0>>;
+                }
+                type $F = Twin;
+                $body
+            }
+            14 => {
+                struct Twin;
+                impl $crate::fam::Fam for Twin {
+                    type Data<'a> = ::shred::Write<'a, $crate::res::Slot<1>>;
+                }
+                type $F = Twin;
+                $body
+            }
             _ => panic!("harness: family index out of range"),
         }
     };
